@@ -94,7 +94,7 @@ PROPS['C12'] = dict(level='proof', steps=[V('pages'), E3('c12-pages')],
 
 PROPS['C17'] = dict(level='other', steps=[V('bookmarks'), E3('c17-outline')],
                 title='Bookmarks become a well-formed outline that reads back',
-                technique='Verus contracts on Document::add_bookmark (the pending forest: fresh id, appended in insertion order under the right parent, every other bookmark untouched, ids rise from parent to child) and on recursive_fix_pages / adjust_zero_pages (termination on every such forest, no panic, nothing but pages of zero-page parents changes, every bookmark under the top-level list ends up with the first real page below it, written as spec functions eff_page / first_real / all_fixed with stability, transitivity and monotonicity lemmas); bounded-exhaustive: every attachment sequence of <= 5 (thorough 6) bookmarks x pages x targets x 4 document layouts, 23-title alphabet, every Unicode scalar value as a title (thorough), against an abstract forest',
+                technique='Verus contracts on Bookmark::new and Document::add_bookmark (the pending forest: fresh id, appended in insertion order under the right parent, every other bookmark untouched, ids rise from parent to child) and on recursive_fix_pages / adjust_zero_pages (termination on every such forest, no panic, nothing but pages of zero-page parents changes, every bookmark under the top-level list ends up with the first real page below it, written as spec functions eff_page / first_real / all_fixed with stability, transitivity and monotonicity lemmas); bounded-exhaustive: every attachment sequence of <= 5 (thorough 6) bookmarks x pages x targets x 4 document layouts, 23-title alphabet, every Unicode scalar value as a title (thorough), against an abstract forest',
                 text='proved for every table, bookmark and parent (Verus unit bookmarks): add_bookmark hands out max_bookmark_id + 1, an id no bookmark of the table carries; stores the bookmark under that id with title, page, colour, format and children as given; appends the id to the end of the top-level list (no parent) or to the end of the named parent\'s children (insertion order under the right parent) and changes no other bookmark and no other list; keeps `every id within 1 ..= max_bookmark_id, stored under its own id`; and, for bookmarks made by Bookmark::new, keeps `every child carries a greater id than its parent and is in the table`, so the pending forest is acyclic. On every forest with those two invariants recursive_fix_pages and adjust_zero_pages terminate (measure: max_bookmark_id + 1 - the smallest id of the list walked), never reach the unwrap of a missing bookmark, and change nothing but the page of bookmarks that had a zero page and children: lists, key set, ids, children, titles, colours, formats and every real page are as before, and both invariants are kept. Which page a zero-page parent receives is proved as well: eff_page(t, id) is the bookmark\'s own page or, for a zero-page parent, the first real page among its children in order, each child standing for its own eff_page; every page the walk changes becomes eff_page computed on the table as it was before the call (rel), the inner walk returns first_real of its list, and after adjust_zero_pages every bookmark in the forest under the top-level list carries eff_page (all_fixed) - whatever the depth, fan-out and order of attachment. That the fix-up is independent of the order in which it visits and rewrites bookmarks is lemma_stable_eff / lemma_stable_first (eff_page is unchanged by replacing pages of zero-page parents with their eff_page). outline_child / build_outline (dictionary building, recursion over the table), the outline readers and get_toc are decided on the enumerated family only (bounded): links, order, fresh ids, titles, destinations and get_toc before/after save+load on every enumerated forest.',
                 note='bounded for the outline itself; precondition max_bookmark_id < u32::MAX on add_bookmark; HashMap::get_mut / insert enter as a stated model (units/bookmarks/spec.rs)')
 
